@@ -23,15 +23,22 @@ def returned_field(f):
 def path_atoms(f, path, decs):
     """atoms of the branch decisions taken on a path (see core.atom_of)"""
     out = []
+    ptr = 0
     for d in decs:
         b, v = d
         t = f.term(b)
         cond = f.expr_operand(t['d'], b, 'T')
+        while ptr < len(path) and path[ptr] != b:
+            ptr += 1
+        if ptr < len(path) and peel(cond)[0] == 'phi':
+            # the branch condition is a merged value: use the definition executed on this very path
+            cond = f.expr_operand_on_path(t['d'], path, ptr)
+        ptr += 1
         if isinstance(v, tuple) and v and v[0] == 'otherwise':
             val = ('ne', tuple(v[1]))
         else:
             val = ('eq', v)
-        a = atom_of(cond, val)
+        a = atom_of(cond, val, f.switch_ty(b))
         out.append((b, a))
     return out
 
@@ -100,6 +107,8 @@ def receiver_field(argtree):
             t = t[2][0]; continue
         if t[0] == 'as':
             t = t[1]; continue
+        if t[0] == 'cast':
+            t = t[2]; continue
         return None
     return None
 
@@ -325,3 +334,113 @@ def resolve_captures(P, g, tree):
                 return caps[int(t[2])]
         return tuple(rec(x) if isinstance(x, tuple) else x for x in t)
     return rec(tree)
+
+
+# ---------------------------------------------------------------- item provenance of per-element calls
+
+ORDER_KEEPING_CONSUMERS = ('std::iter::Iterator::for_each', 'std::iter::Iterator::try_for_each', 'std::iter::Iterator::fold', 'std::iter::Iterator::try_fold')
+
+
+def _strip_into_iter(it):
+    it = peel(it)
+    while it[0] == 'call' and it[2] and ((it[1].endswith('::into_iter') and 'IntoIterator' in it[1]) or it[1] == 'std::iter::Iterator::by_ref'):
+        it = peel(it[2][0])
+    return it
+
+
+class ItemCall:
+    """one call made per element of an iteration (see per_item_calls)"""
+    def __init__(self, fn, site, it, trees, anchor, form, exhaustive):
+        self.fn, self.site, self.it, self.trees, self.anchor, self.form, self.exhaustive = fn, site, it, trees, anchor, form, exhaustive
+
+    def __iter__(self):   # (fn, site, iterator, arg trees)
+        return iter((self.fn, self.site, self.it, self.trees))
+
+
+def innermost_loop(f, b):
+    ls = [(len(f.loops()[h]), h) for h in f.loops_containing(b)]
+    return min(ls)[1] if ls else None
+
+
+def loop_exits_only_on_exhaustion(f, h):
+    """the natural loop with header h is left only where the discriminant of an Iterator::next result is tested
+    (a `for` loop without break/return)"""
+    body = f.loops()[h]
+    n = 0
+    for u in body:
+        for v in f.succs(u):
+            if v in body:
+                continue
+            t = f.term(u)
+            if t['k'] != 'switch':
+                return False
+            cond = f.expr_operand(t['d'], u, 'T')
+            if not any(x[0] == 'call' and x[1].endswith('::next') and 'Iterator' in x[1] for x in walk(cond)):
+                return False
+            n += 1
+    return n >= 1
+
+
+def per_item_calls(P, f, callee_name):
+    """calls to `callee_name` made once per element of an iteration in f: either in a loop of f with operands taken from
+    Iterator::next, or through an order-keeping consumer (for_each/try_for_each/fold) given a closure that makes the call, or
+    given the callee itself as a function item.  Returns ItemCall objects: iterator tree in f's frame with into_iter/by_ref
+    wrappers removed; anchor = block of f that stands for the whole iteration (loop header / consumer call)."""
+    out = []
+    for s in f.calls():
+        if callee_name not in s.names():
+            continue
+        trees = [peel(f.expr_operand(a, s.b, 'T')) for a in s.args]
+        it = None
+        for t in trees:
+            for x in walk(t):
+                if x[0] == 'call' and x[1].endswith('::next') and 'Iterator' in x[1] and x[2]:
+                    it = _strip_into_iter(x[2][0])
+                    break
+            if it is not None:
+                break
+        h = innermost_loop(f, s.b)
+        if h is not None:
+            out.append(ItemCall(f, s, it, trees, h, 'loop', loop_exits_only_on_exhaustion(f, h)))
+    for s in f.calls():
+        if not (s.names() & set(ORDER_KEEPING_CONSUMERS)) or not s.args:
+            continue
+        it = _strip_into_iter(f.expr_operand(s.args[0], s.b, 'T'))
+        exhaustive = bool(s.names() & {'std::iter::Iterator::for_each', 'std::iter::Iterator::fold'})
+        for a in s.args[1:]:
+            t = peel(f.expr_operand(a, s.b, 'T'))
+            if t[0] == 'fnitem' and t[1] == callee_name:
+                out.append(ItemCall(f, s, it, None, s.b, 'consumer', exhaustive))
+            if t[0] == 'agg' and str(t[1]).startswith('closure:'):
+                cl = P.fns.get(t[1][len('closure:'):])
+                for cs in (cl.calls() if cl else []):
+                    if callee_name in cs.names():
+                        out.append(ItemCall(cl, cs, it, [peel(cl.expr_operand(x, cs.b, 'T')) for x in cs.args], s.b, 'consumer',
+                                            exhaustive and not cl.loops_containing(cs.b) and cl.postdominates_entry(cs.b)))
+    return out
+
+
+def from_item(fn, tree):
+    """does the operand tree derive from the iteration item (Iterator::next result, or the closure's item parameter)?"""
+    for x in walk(tree):
+        if x[0] == 'call' and x[1].endswith('::next') and 'Iterator' in x[1]:
+            return True
+        if fn.kind == 'closure' and x[0] == 'arg' and x[1] >= 2:
+            return True
+    return False
+
+
+def option_state(a):
+    """('some'|'none', subject tree) if the atom states which variant an Option is in (is_some/is_none/match forms)"""
+    if a[0] == 'bool' and a[1][0] == 'call' and a[1][2]:
+        n = a[1][1]
+        if n.endswith('Option::is_some'):
+            return ('some' if a[2] else 'none', a[1][2][0])
+        if n.endswith('Option::is_none'):
+            return ('none' if a[2] else 'some', a[1][2][0])
+    if a[0] == 'is' and a[2] in ('Some', 'None'):
+        return (a[2].lower(), a[1])
+    if a[0] == 'isnot' and a[2] in ('Some', 'None') or (a[0] == 'isnot' and isinstance(a[2], (tuple, list)) and len(a[2]) == 1 and a[2][0] in ('Some', 'None')):
+        v = a[2] if isinstance(a[2], str) else a[2][0]
+        return ('none' if v == 'Some' else 'some', a[1])
+    return None
